@@ -84,6 +84,8 @@ var (
 	reDate   = regexp.MustCompile(`^[0-9]{4}-[0-9]{2}-[0-9]{2}$`)
 )
 
+var reUUID = regexp.MustCompile(`^[0-9a-fA-F]{8}-[0-9a-fA-F]{4}-[0-9a-fA-F]{4}-[0-9a-fA-F]{4}-[0-9a-fA-F]{12}$`)
+
 // alterString changes a string within its apparent type.
 func alterString(s string) string {
 	switch {
@@ -190,6 +192,18 @@ func enumerate(doc *c07.JV) []*edit {
 			if v.K == c07.Str && strings.ContainsAny(v.S, "\r\n") {
 				out = append(out, &edit{Kind: "swap-cr-lf", Path: p})
 			}
+			// the smallest extensions a lenient reader might strip again: a trailing slash or a
+			// fragment on identifiers and URLs, trailing white space, the case of the first letter
+			if v.K == c07.Str && v.S != "" {
+				if strings.Contains(v.S, "/") || (len(p) > 0 && p[len(p)-1] == "$schema") {
+					out = append(out, &edit{Kind: "append-slash", Path: p}, &edit{Kind: "append-fragment", Path: p})
+				}
+				out = append(out, &edit{Kind: "append-space", Path: p})
+				// (the hex digits of a UUID are case-insensitive: another spelling of the same value, not an edit)
+				if r := v.S[0]; ((r >= 'a' && r <= 'z') || (r >= 'A' && r <= 'Z')) && !reUUID.MatchString(v.S) {
+					out = append(out, &edit{Kind: "toggle-case", Path: p})
+				}
+			}
 		}
 	}
 	rec(doc, nil)
@@ -239,6 +253,20 @@ func apply(doc *c07.JV, e *edit) *c07.JV {
 			}
 			return r
 		}, x.S)
+		e.Now = x.S
+	case "append-slash", "append-fragment", "append-space", "toggle-case":
+		x := at(d, e.Path)
+		e.Was = x.S
+		switch e.Kind {
+		case "append-slash":
+			x.S += "/"
+		case "append-fragment":
+			x.S += "#x"
+		case "append-space":
+			x.S += " "
+		default:
+			x.S = string(x.S[0]^0x20) + x.S[1:]
+		}
 		e.Now = x.S
 	case "remove-member":
 		par := at(d, e.Path[:len(e.Path)-1])
